@@ -7,6 +7,7 @@ from cspuz.grid_frame import BoolGridFrame
 from cspuz.puzzle import util
 from cspuz.generator import generate_problem, count_non_default_values, Choice
 from cspuz.problem_serializer import (
+    _is_hex,
     Combinator,
     Grid,
     OneOf,
@@ -108,7 +109,7 @@ class YajilinClue(Combinator):
             return 2, ["??"]
         DIR_MAP = {1: "^", 2: "v", 3: "<", 4: ">"}
         if dir in "56789":
-            if idx + 2 >= len(data):
+            if idx + 2 >= len(data) or not _is_hex(data[idx + 1 : idx + 3]):
                 return None
             if dir == "5":
                 return 3, ["??"]
@@ -118,6 +119,8 @@ class YajilinClue(Combinator):
         n = data[idx + 1]
         if n == ".":
             return 2, ["??"]
+        if not _is_hex(n):
+            return None
         return 2, [f"{DIR_MAP[int(dir)]}{int(n, 16)}"]
 
 
